@@ -49,11 +49,31 @@ else:
 res["suite_failures_with"] = fails
 res["suite_ok"] = [f.split(" (")[0] for f in fails] in ([], ["--- FAIL: TestLLMTokensProcessor"])
 reset()
+# wave 5: a behaviour-preserving refactoring delivered next to the patch
+neutral = f"{out}/neutral.diff"
+if os.path.exists(neutral):
+    rc, o = sh(f"git apply --check {neutral}"); res["neutral_applies"] = rc == 0
+    if rc == 0:
+        sh(f"git apply {neutral}"); place_demo(); rc, o = run_demo(); res["demo_passes_with_neutral"] = rc == 0
+        if rc != 0: res["demo_neutral_tail"] = o[-400:]
+        os.remove(os.path.join(wt, demo_rel))
+        nf = []
+        if "interceptors/" not in files:
+            for m in mods:
+                rc, o = sh("go build ./... && go test -vet=off -count=1 ./... 2>&1 | grep -E '^(--- FAIL|FAIL|panic)'", cwd=os.path.join(wt, m))
+                nf += [l for l in o.splitlines() if l.startswith("--- FAIL") or "build failed" in l or l.startswith("panic")]
+        res["suite_failures_neutral"] = nf
+        res["neutral_ok"] = res["demo_passes_with_neutral"] and [f.split(" (")[0] for f in nf] in ([], ["--- FAIL: TestLLMTokensProcessor"])
+    else:
+        res["neutral_ok"] = False
+    reset()
 ok = res["applies"] and res["demo_passes_without"] and res["demo_fails_with"] and res["suite_ok"]
 res["confirmed"] = ok
 if ok:
     dst = f"/verif/seeded/{prop}-m{k}"; os.makedirs(dst, exist_ok=True)
     shutil.copy(f"{out}/patch.diff", dst); shutil.copy(demo_src[0], dst)
+    if res.get("neutral_ok"):
+        shutil.copy(neutral, dst)
     meta["confirmed_by_me"] = {"ran": ["git apply --check", "demo without mutant (pass)", "demo with mutant (fail)", "go build + go test ./... of affected modules with mutant == baseline (only TestLLMTokensProcessor fails)"], "base_commit": subprocess.run("git rev-parse --short HEAD", shell=True, cwd=wt, capture_output=True, text=True).stdout.strip()}
     json.dump(meta, open(f"{dst}/meta.json", "w"), indent=1)
 print(json.dumps(res))
